@@ -5,7 +5,7 @@ nearly well-formed and exhaustive small histories, with the protocol checker run
 implementation's own handshake answers and cross-checked against wf_history in Coq
 (corr:wf-history).  Oracle: C02's statement on the implementation's emitted stream."""
 import json
-import vlib
+import vlib, gen_tie
 from props import dispatcher_common as dc
 from props import C10 as c10
 
@@ -43,6 +43,9 @@ def run(tier, seed):
         gate[k] += gate_life[k]
     gate["theorems"] = gate["theorems"] + gate_life["theorems"]
     gate["axioms"].update(gate_life["axioms"])
+    # glue code (DESIGN 11.7, third round): run_count = |selected| (every mismatch reason counts as skipped) and the
+    # priority queue keeps every listed test, read from nextest-runner/src/list/test_list.rs
+    gen_tie.gate(chk, ['run_count', 'priority_queue', 'execute_filter_stage'], gate, family="glue")
     binary, err = vlib.build_harness()
     if binary is None:
         chk.violation("broken-obligation", "harness-build", dict(error=err), no_input=True)
